@@ -26,6 +26,8 @@ def _verify_one(job):
     """worker: verify one function (runs in a subprocess)"""
     repo_root, fn_key = job[0], job[1]
     extra_requires = job[2] if len(job) > 2 else []
+    start = job[4] if len(job) > 4 else None
+    budget = job[5] if len(job) > 5 else None
     sys.setrecursionlimit(10000)
     from .verify import FunctionVerifier
     from .loader import Unsupported
@@ -41,7 +43,7 @@ def _verify_one(job):
     t0 = time.time()
     try:
         fv = FunctionVerifier(repo, db, c)
-        rep = fv.run()
+        rep = fv.run(start=start, budget=budget)
     except Unsupported as exc:
         return {"fn": fn_key, "error": f"unsupported: {exc}", "crash": None, "obligations": {}, "paths": 0,
                 "reachable": 0, "queries": 0, "assumed": [], "wall": time.time() - t0, "solver_time": 0.0, "sha": None,
@@ -71,9 +73,61 @@ def _verify_one(job):
             "reachable": rep.reachable_paths, "queries": rep.queries, "assumed": sorted(rep.assumed),
             "wall": round(rep.wall, 3), "solver_time": round(rep.solver_time, 3), "sha": rep.finfo.sha,
             "notes": sorted(rep.notes), "exits": rep.exits, "schema": rep.schema,
-            "unreached_raises": [r.exc for r in c.raises if not any(_sub(x, r.exc) for x in rep.raised_classes)]
-            if not (rep.error or rep.crash) else [],
-            "clock": list(c.clock), "ensures": dict(c.ensures), "raises": {r.exc: r.when for r in c.raises}}
+            "unreached_raises": [],
+            "clock": list(c.clock), "ensures": dict(c.ensures), "raises": {r.exc: r.when for r in c.raises},
+            "pending": getattr(rep, "pending", []), "raised_classes": sorted(rep.raised_classes),
+            "declared_raises": [r.exc for r in c.raises]}
+
+
+PATH_BUDGET = int(os.environ.get("PYVC_PATH_BUDGET", "3"))
+
+
+def _merge(merged, res):
+    key = res["fn"]
+    cur = merged.get(key)
+    if cur is None:
+        merged[key] = res
+        return
+    for name, e in res["obligations"].items():
+        c = cur["obligations"].get(name)
+        if c is None:
+            cur["obligations"][name] = e
+            continue
+        c["paths"] += e["paths"]
+        c["time"] = round(c["time"] + e["time"], 4)
+        c["solvers"] = sorted(set(c["solvers"]) | set(e["solvers"]))
+        c["failures"] = (c["failures"] + e["failures"])[:3]
+        rank = {"discharged": 0, "undecided": 1, "failed": 2}
+        if rank[e["status"]] > rank[c["status"]]:
+            c["status"] = e["status"]
+            c["where"] = e["where"]
+    for k in ("paths", "reachable", "queries"):
+        cur[k] += res[k]
+    cur["wall"] = round(max(cur["wall"], res["wall"]), 3)
+    cur["solver_time"] = round(cur["solver_time"] + res["solver_time"], 3)
+    cur["assumed"] = sorted(set(cur["assumed"]) | set(res["assumed"]))
+    cur["notes"] = sorted(set(cur["notes"]) | set(res["notes"]))
+    cur["error"] = cur["error"] or res["error"]
+    cur["crash"] = cur["crash"] or res["crash"]
+    cur["raised_classes"] = sorted(set(cur.get("raised_classes", [])) | set(res.get("raised_classes", [])))
+    for k, v in (res.get("exits") or {}).items():
+        cur.setdefault("exits", {})[k] = cur.get("exits", {}).get(k, 0) + v
+    cur["schema"] = cur.get("schema") or res.get("schema")
+
+
+def _finalize(r):
+    """vacuity guards and cover of the declared exceptional exits, over all paths of the function"""
+    if r["error"] is None and r["crash"] is None:
+        if r["reachable"] == 0:
+            r["crash"] = "vacuous: no path is satisfiable under the preconditions"
+        elif not r["obligations"]:
+            r["crash"] = "vacuous: zero obligations generated"
+    if not (r["error"] or r["crash"]):
+        r["unreached_raises"] = [x for x in r.get("declared_raises", [])
+                                 if not any(_sub(y, x) for y in r.get("raised_classes", []))]
+    else:
+        r["unreached_raises"] = []
+    r.pop("pending", None)
 
 
 def _sub(a, b):
@@ -98,7 +152,8 @@ def run_check(prop, tier, repo_root, only=None, verbose=False):
         print(f"CHECKER-ERROR property={prop}: cannot load: {exc}")
         traceback.print_exc()
         return 3
-    keys = [k for k, c in db.contracts.items() if prop in c.serves and not c.assumed and "::" in k]
+    keys = [k for k, c in db.contracts.items() if prop in c.serves and not c.assumed and not c.bounded and "::" in k]
+    bounded = [c for c in db.contracts.values() if prop in c.serves and c.bounded]
     if only:
         keys = [k for k in keys if only in k]
     lemma_idx = [i for i, l in enumerate(db.lemmas) if prop in l.get("serves", [])]
@@ -109,22 +164,40 @@ def run_check(prop, tier, repo_root, only=None, verbose=False):
             jobs += [(repo_root, f"{k}@{v}", [], prop) for v in vs]
         else:
             jobs.append((repo_root, k, [], prop))
-    workers = min(16, max(1, len(jobs) + len(lemma_idx)))
     results, lemma_results = [], []
-    if os.environ.get("PYVC_SERIAL") or workers == 1:
+    if os.environ.get("PYVC_SERIAL"):
         results = [_verify_one(j) for j in jobs]
         lemma_results = [_lemma_one((repo_root, i)) for i in lemma_idx]
     else:
-        with ProcessPoolExecutor(max_workers=workers) as pool:
-            futs = [pool.submit(_verify_one, j) for j in jobs]
+        # path-level parallelism: a job explores up to PATH_BUDGET paths below its start prefix and hands the
+        # unexplored prefixes back; they become new jobs
+        from concurrent.futures import FIRST_COMPLETED, wait
+        merged: dict[str, dict] = {}
+        order = []
+        with ProcessPoolExecutor(max_workers=16) as pool:
             lfuts = [pool.submit(_lemma_one, (repo_root, i)) for i in lemma_idx]
-            results = [f.result() for f in futs]
+            live = {}
+            for j in jobs:
+                live[pool.submit(_verify_one, (j[0], j[1], j[2], j[3], [], PATH_BUDGET))] = j
+                order.append(j[1])
+            while live:
+                done, _ = wait(list(live), return_when=FIRST_COMPLETED)
+                for f in done:
+                    j = live.pop(f)
+                    res = f.result()
+                    for pref in res.get("pending", []):
+                        live[pool.submit(_verify_one, (j[0], j[1], j[2], j[3], pref, PATH_BUDGET))] = j
+                    _merge(merged, res)
             lemma_results = [f.result() for f in lfuts]
+        results = [merged[k] for k in order if k in merged]
+    for r in results:
+        _finalize(r)
     def reverify(fn_key, obname, case):
         """re-run one function under the negated case predicate of a known finding"""
         if fn_key.startswith("lemma::"):
             return "failed"
         res = _verify_one((repo_root, fn_key, [f"not ({case})"], prop))
+        _finalize(res)
         if res["error"] or res["crash"]:
             return "undecided"
         e = res["obligations"].get(obname)
@@ -133,6 +206,20 @@ def run_check(prop, tier, repo_root, only=None, verbose=False):
         return e["status"]
 
     extra = dict(db.meta.get(prop, {}))
+    extra["bounded"] = list(extra.get("bounded", []))
+    extra["bounded_failures"] = []
+    for c in ([] if only else bounded):
+        import subprocess
+        try:
+            out = subprocess.run(["/venv/bin/python", os.path.join(HERE, "replaylib", "bounded.py"), c.bounded, repo_root, tier],
+                                 capture_output=True, text=True, timeout=900)
+            res = json.loads(out.stdout.strip().splitlines()[-1])
+        except Exception as exc:  # noqa: BLE001
+            res = {"name": c.bounded, "error": f"{type(exc).__name__}: {exc}"}
+        res["label"] = "bounded (never counted as proved)"
+        extra["bounded"].append(res)
+        if res.get("n_failures"):
+            extra["bounded_failures"].append(res)
     if tier == "thorough":
         from .thorough import run_thorough
         extra.update(run_thorough(prop, repo_root, db, keys) or {})
